@@ -22,5 +22,9 @@ ModelOut(h) == [i \in 1..Len(h) |-> ModelStep(h[i])]
 \* o.steps: sequence of [op, result ("same" as on a fresh provider | "diff" | "na" for mut), cfg_same]
 C17_OK(h, o) == /\ Len(o.steps) = Len(h)
                 /\ \A i \in DOMAIN o.steps : o.steps[i].cfg_same /\ o.steps[i].result \in {"same", "na"}
+\* C19: the published metadata is a function of the configuration only -- whatever was done before, including edits a
+\* caller made in place to an earlier metadata document
+C19_OK(h, o) == /\ Len(o.steps) = Len(h)
+                /\ \A i \in DOMAIN o.steps : o.steps[i].op = "metadata" => (o.steps[i].cfg_same /\ o.steps[i].result = "same")
 Conforms(h, o) == TRUE
 =============================================================================
